@@ -136,6 +136,12 @@ def diff_span(a, b):
 
 
 NUMTOK = re.compile(r'\b(?:0x[0-9a-fA-F]{1,16}|\d{1,20})\b')
+# Python's UnicodeDecodeError text: one offending byte, its position and one of a few fixed reasons
+CODEC = re.compile(r"can't decode bytes? (?:0x[0-9a-f]{2}|in position \d+-\d+)(?: in position \d+(?:-\d+)?)?: [a-z ]{1,40}")
+
+
+def numbers_masked(t):
+    return NUMTOK.sub('#', CODEC.sub("can't decode #", t))
 
 
 def site_name(table, key):
@@ -255,7 +261,7 @@ def swap_compare(ctx, table, hist, wa, wb, stats):
         if n >= 6:
             site = site_name(table, key)
             # what differs: only short numbers (<= 20 digits / 16 hex digits), or more?
-            cause = 'short-number-echo' if NUMTOK.sub('#', a) == NUMTOK.sub('#', b) else 'text'
+            cause = 'short-number-echo' if numbers_masked(a) == numbers_masked(b) else 'text'
             ctx.violation({'oracle': 'secret-swap', 'site': site, 'channel': key[0], 'cause': cause},
                           {'history': hist['name'], 'layer': hist['layer'], 'struct_seed': wa.struct_seed,
                            'canary_seeds': [wa.can_seed, wb.can_seed], 'where': where,
